@@ -49,7 +49,15 @@ def runSplitneutral (c : Case) : Res :=
       let badInserted := inserted.find? (fun (d : ImplDelta) => !closeOpt d.pre.acb d.post.acb || d.gain.isSome)
       let hasSfl := a.deltas.any (fun (d : ImplDelta) => d.sfl.isSome)
       let tags := tags ++ [s!"sfl={if hasSfl then 1 else 0}", s!"outA={a.outcome}"]
-      if let some _ := badInserted then
+      let m := a.msg ++ " " ++ b.msg
+      let has := fun (pat : String) => (m.splitOn pat).length > 1
+      let noise := has "went below zero in 30-day period" || has "is more than the current" ||
+           has "is lower than the share balance for the affiliate" || has "non-integer share balance"
+      if noise then
+        -- one of the runs was cut short by a decimal-rounding rejection (finding F-04n, reported
+        -- under C04): the two row lists are not comparable
+        { verdict := "ok", tags := "near=1" :: tags }
+      else if let some _ := badInserted then
         { verdict := "ORACLE", tags := "of=C15" :: tags, msg := "an inserted split row changes the cost base or reports a gain" }
       else if a.outcome ≠ b.outcome then
         -- Decimal rounding after a non-terminating division can make one side fail by a hair
